@@ -121,8 +121,12 @@ impl Model {
 struct Vw {
     flavour: Flavour,
     thorough: bool,
-    seeds: usize,
+    /// which seed state this world starts from (one world per seed, so that the expensive
+    /// long-history seed can be explored one level less deep than the empty one)
+    seed: usize,
 }
+
+const SEED_NAMES: [&str; 3] = ["empty@10", "5-checkpoint-history@16", "balance~i128::MAX@11"];
 
 struct Inst {
     e: Env,
@@ -340,7 +344,7 @@ impl Vw {
         // --- the current and future ledgers are refused (every account at `now`; one rotating
         //     account further out — the refusal cannot depend on more than the ledger)
         let mut fut = 0u64;
-        for (l, accts) in [(now, vec![A, B, C]), (now + 1, vec![(now as usize) % N]), (u32::MAX, vec![(now as usize + 1) % N])] {
+        for (l, accts) in [(now - 1, vec![A, B, C]), (now + 1, vec![(now as usize) % N]), (u32::MAX, vec![(now as usize + 1) % N])] {
             for a in accts {
                 let r = view(e, &i.c, "get_votes_at_checkpoint", (i.u[a].clone(), l).into_val(e));
                 ensure!(r.is_err(), "future-refused", "at ledger {}: get_votes_at_checkpoint({}, {}) answered {:?}", now, NAMES[a], l, r);
@@ -363,8 +367,9 @@ impl Vw {
         let del = |a, b, re| Op::Delegate { a, b, re };
         match (seed, self.flavour.nft()) {
             (0, _) => vec![],
-            // a history with 5 checkpoints for A and for the total, at irregular gaps, with
-            // several operations inside one ledger; ends at ledger 19
+            // a history with 5 checkpoints for A and for the total (ledgers 10, 11, 13, 14, 15:
+            // one gap), several operations inside one ledger, an undelegated holder for a
+            // while, a re-delegation; ends at ledger 16
             (1, false) => {
                 let tr = |from, to, a| Op::Transfer { from, to, a, via };
                 let burn = |from: usize, a| if self.flavour.has_burn() { Op::Burn { from, a, via } } else { Op::Transfer { from, to: (from + 2) % N, a, via } };
@@ -372,21 +377,18 @@ impl Vw {
                     Op::Mint { to: A, a: 3 },
                     del(A, A, false),
                     del(B, A, false),
-                    Op::Mint { to: B, a: 2 },
                     Op::Advance(1), // 11
-                    tr(A, C, 1),
+                    Op::Mint { to: B, a: 2 },
                     Op::Advance(2), // 13
-                    Op::Mint { to: C, a: 2 },
-                    del(C, B, false),
+                    tr(A, C, 1),
+                    Op::Mint { to: C, a: 1 },
                     Op::Advance(1), // 14
                     burn(B, 1),
-                    Op::Advance(3), // 17
-                    tr(C, A, 1),
+                    del(C, B, false),
+                    Op::Advance(1), // 15
+                    Op::Mint { to: C, a: 2 },
                     del(B, B, true),
-                    burn(C, 1),
-                    Op::Advance(1), // 18
-                    Op::Mint { to: A, a: 1 },
-                    Op::Advance(1), // 19
+                    Op::Advance(1), // 16
                 ]
             }
             (1, true) => {
@@ -396,21 +398,19 @@ impl Vw {
                     Op::NMint { to: A, id: 1 },
                     del(A, A, false),
                     del(B, A, false),
-                    Op::NMint { to: B, id: 2 },
                     Op::Advance(1), // 11
-                    tr(A, C, 0, false),
+                    Op::NMint { to: B, id: 2 },
                     Op::Advance(2), // 13
+                    tr(A, C, 0, false),
                     Op::NMint { to: C, id: 3 },
-                    del(C, B, false),
                     Op::Advance(1), // 14
-                    Op::NBurn { from: B, id: 2, via: false },
-                    Op::Advance(3), // 17
+                    Op::NBurn { from: B, id: 2, via: true },
+                    del(C, B, false),
+                    Op::Advance(1), // 15
+                    Op::NBurn { from: C, id: 0, via: false },
                     tr(C, A, 3, true),
                     del(B, B, true),
-                    Op::NBurn { from: C, id: 0, via: true },
-                    Op::Advance(1), // 18
-                    Op::NMint { to: A, id: 4 },
-                    Op::Advance(1), // 19
+                    Op::Advance(1), // 16
                 ]
             }
             // amounts at the top of the i128 range of balances (units and votes are u128)
@@ -439,16 +439,14 @@ impl World for Vw {
             Flavour::Nft => "nft-votes-wrapper",
             Flavour::NftSeq => "nft-votes-wrapper-seq",
         };
-        format!("{n}{}", if self.thorough { "-t" } else { "" })
+        format!("{n}{}/{}", if self.thorough { "-t" } else { "" }, SEED_NAMES[self.seed])
     }
-    fn seeds(&self) -> usize {
-        self.seeds
-    }
-    fn seed_name(&self, s: usize) -> String {
-        ["empty@10", "5-checkpoint-history@19", "balance~i128::MAX@11"][s].to_string()
+    fn seed_name(&self, _s: usize) -> String {
+        SEED_NAMES[self.seed].to_string()
     }
 
-    fn fresh(&self, seed: usize) -> (Inst, Model) {
+    fn fresh(&self, _engine_seed: usize) -> (Inst, Model) {
+        let seed = self.seed;
         let e = envx::mk_env(START);
         let u = [Address::generate(&e), Address::generate(&e), Address::generate(&e)];
         let sp = Address::generate(&e);
@@ -504,7 +502,7 @@ impl World for Vw {
         };
         let via = self.flavour == Flavour::WrapperSpender;
         if self.flavour.nft() {
-            let cap = if self.thorough { 5 } else { 4 };
+            let cap = 4;
             if m.owner.len() < cap {
                 // a fresh id: one above everything minted so far
                 let id = m.owner.keys().max().map(|x| x + 1).unwrap_or(0).max(m.minted);
@@ -624,8 +622,8 @@ impl World for Vw {
 
 fn main() {
     if std::env::var("C13_PROF").is_ok() {
-        let w = Vw { flavour: Flavour::Wrapper, thorough: false, seeds: 2 };
         for seed in 0..2 {
+            let w = Vw { flavour: Flavour::Wrapper, thorough: false, seed };
             let t = std::time::Instant::now();
             for _ in 0..200 {
                 let _ = w.fresh(seed);
@@ -659,34 +657,47 @@ fn main() {
     main_with(
         "C13",
         "model_checking",
-        "level-BFS over histories of mint / burn / transfer (incl. self-transfer, full balance; holder and pre-approved-spender paths) / delegate(a->b incl. self and re-delegation) / advance(1|3) on 3 accounts, amounts {1,2,balance} (thorough: +0, balance+1), on the real FungibleVotes wrapper, the fungible-votes example and a NonFungibleVotes wrapper (explicit and sequential ids); seeds {empty at ledger 10, a 5-checkpoint history ending at ledger 19, thorough: balance ~ i128::MAX}; after every accepted operation: balance = voting units, get_votes = sum of units of current delegators, total = sum of units, get_delegate, and get_votes_at_checkpoint / get_total_supply_at_checkpoint for ledger 0 and EVERY ledger start-1..now-1 against a dense end-of-ledger table, queries at now / now+1 / u32::MAX refused; states merged by canonical storage digest + ledger, with the model (incl. its whole past table) as differential oracle at merge; non-trivial = distinct state reached through >=1 accepted operation",
+        "level-BFS over histories of mint / burn / transfer (incl. self-transfer, full balance; holder and pre-approved-spender paths) / delegate(a->b incl. self and re-delegation) / advance(1|3) on 3 accounts, amounts {1,2,balance} (thorough: +0, balance+1), on the real FungibleVotes wrapper, the fungible-votes example and a NonFungibleVotes wrapper (explicit and sequential ids); seeds {empty at ledger 10, a 5-checkpoint history ending at ledger 16, thorough: balance ~ i128::MAX}; after every accepted operation: balance = voting units, get_votes = sum of units of current delegators, total = sum of units, get_delegate, and get_votes_at_checkpoint / get_total_supply_at_checkpoint for ledger 0 and EVERY ledger start-1..now-1 against a dense end-of-ledger table, queries at now / now+1 / u32::MAX refused; states merged by canonical storage digest + ledger, with the model (incl. its whole past table) as differential oracle at merge; non-trivial = distinct state reached through >=1 accepted operation",
         |tier: Tier, r: &mut Runner| {
             let th = tier == Tier::Thorough;
+            // (flavour, seed, depth, wall cap in s). Measured cost per transition: ~0.7 ms from the
+            // empty seed, ~3 ms from the long-history seed (15-17 replayed calls + ~45 queries).
+            use Flavour::*;
             let plan: Vec<(Flavour, usize, usize, u64)> = if th {
                 vec![
-                    (Flavour::Wrapper, 3, 6, 240),
-                    (Flavour::WrapperSpender, 2, 5, 90),
-                    (Flavour::Example, 2, 5, 90),
-                    (Flavour::Nft, 2, 6, 120),
-                    (Flavour::NftSeq, 2, 5, 40),
+                    (Wrapper, 0, 5, 150),
+                    (Wrapper, 1, 4, 150),
+                    (Wrapper, 2, 3, 20),
+                    (WrapperSpender, 0, 4, 30),
+                    (WrapperSpender, 1, 3, 30),
+                    (Example, 0, 5, 60),
+                    (Example, 1, 3, 30),
+                    (Nft, 0, 6, 100),
+                    (Nft, 1, 4, 60),
+                    (NftSeq, 0, 4, 20),
+                    (NftSeq, 1, 3, 30),
                 ]
             } else {
                 vec![
-                    (Flavour::Wrapper, 2, 4, 14),
-                    (Flavour::WrapperSpender, 2, 3, 6),
-                    (Flavour::Example, 2, 3, 6),
-                    (Flavour::Nft, 2, 4, 10),
-                    (Flavour::NftSeq, 1, 3, 4),
+                    (Wrapper, 0, 4, 10),
+                    (Wrapper, 1, 3, 10),
+                    (WrapperSpender, 0, 3, 4),
+                    (WrapperSpender, 1, 2, 3),
+                    (Example, 0, 3, 4),
+                    (Example, 1, 2, 3),
+                    (Nft, 0, 4, 6),
+                    (Nft, 1, 3, 6),
+                    (NftSeq, 0, 3, 3),
                 ]
             };
             let plan = if let Ok(c) = std::env::var("C13_CAL") {
                 let x: Vec<usize> = c.split(',').map(|t| t.parse().unwrap()).collect();
-                vec![([Flavour::Wrapper, Flavour::WrapperSpender, Flavour::Example, Flavour::Nft, Flavour::NftSeq][x[0]], x[1], x[2], 3000u64)]
+                vec![([Wrapper, WrapperSpender, Example, Nft, NftSeq][x[0]], x[1], x[2], 3000u64)]
             } else {
                 plan
             };
-            for (flavour, seeds, depth, wall) in plan {
-                r.world(&Vw { flavour, thorough: th, seeds }, &Bounds::new(depth, wall));
+            for (flavour, seed, depth, wall) in plan {
+                r.world(&Vw { flavour, thorough: th, seed }, &Bounds::new(depth, wall));
             }
             if let Some(rep) = r.report() {
                 rep.require(
